@@ -330,6 +330,14 @@ def _tree_to_objects(
             if p is None:
                 continue
             dirty_dirs.add(osutils.dirname(p))
+        if change.path[0] is not None and change.path[0] != change.path[1]:
+            # The entry left its old directory. If that directory was itself
+            # moved in this revision it has to be rebuilt at its new path.
+            new_dir = InterTree.get(base_tree, tree).find_target_path(
+                osutils.dirname(change.path[0])
+            )
+            if new_dir is not None:
+                dirty_dirs.add(new_dir)
 
     # Fetch contents of the blobs that were changed
     for (path, file_id), chunks in tree.iter_files_bytes(
